@@ -112,6 +112,15 @@ var pinned = []pin{
 	{name: "computed-key-over-accessor",
 		a:      `var k = "p"; var o = {set p(g) { log("set", g); }, get q() { return 1; }, [k]: 2, [k === "p" ? "q" : "z"]: 3}; log(o.p, o.q);`,
 		expect: "L d:4000000000000000 d:4008000000000000\nRET u"},
+	{name: "param-default-name",
+		a:      `log((function(a = () => 1) { return a.name; })(), ((b = function() { }) => b.name)());`,
+		expect: "L s:1:a s:1:b\nRET u"},
+	{name: "destructuring-default-name-dynamic-target", // seeded C02-destruct-default-name: R3 / R4 / placement
+		a: `(function() { var f, g, h; [f = function() { }] = []; ({g = () => 1} = {}); ({k: h = class { }} = {}); log(f.name, g.name, h.name); })();`,
+		b: `(function() { var f, g, h; with ({}) { [f = function() { }] = []; ({g = () => 1} = {}); ({k: h = class { }} = {}); } eval(""); log(f.name, g.name, h.name); })();`},
+	{name: "for-let-copy-seen-through-eval", // seeded C02-forlet-eval-copy: R13
+		a: `var q = []; for (let i = 0; i < 3; i++) { q[i] = () => i; } log(q[0](), q[1](), q[2]());`,
+		b: `var q = []; for (let i = 0; i < 3; i++) { q[i] = eval("() => i"); } log(q[0](), q[1](), q[2]());`},
 	{name: "unresolvable-callee-order",
 		a:      `function g() { log("g"); } try { nof(g()); } catch (e) { log(e); }`,
 		expect: "L E:ReferenceError\nRET u"},
